@@ -5,7 +5,7 @@ import sys, os
 sys.path.insert(0, "/verif/harness")
 os.environ.setdefault("PYTHONHASHSEED", "0")
 import common
-common.build = lambda log=None: {"gen": {"rc": 0, "out": "skipped (dev runner)", "err": ""}, "make_s": 0.0}
+common.build = lambda *a, **k: {"gen": {"rc": 0, "out": "skipped (dev runner)", "err": ""}, "make_s": 0.0}
 import check
 sys.argv = ["check"] + sys.argv[1:]
 sys.exit(check.main())
